@@ -70,6 +70,7 @@ THEOREMS = [
     "Verif.C01.chain_idem",
     "Verif.C01.window_wf",
     "Verif.C01.timeString_functional",
+    "Verif.C01.cont_slice_no_overflow",
 ]
 RULE = (
     "corpus (F1, F6 inputs) + exhaustive small scope (n<=5 samples, dt in {1,2,3,5}, two starts, every window "
